@@ -173,6 +173,8 @@ pub struct Oracle {
     /// that never gets where it is meant to go is visible
     pub cover: u64,
     pub witness: Option<usize>,
+    pub last_ping_ms: Option<u64>,
+    pub pings_at_instant: u32,
 }
 
 /// Situations worth knowing a family reached at least once.
@@ -213,6 +215,8 @@ pub struct Obs {
     /// PUBREL completely written
     pub pubrels: Vec<Vec<u8>>,
     pub delivered: Vec<InMsg>,
+    /// number of PINGREQs that reached the broker
+    pub pings: u32,
 }
 
 impl Oracle {
@@ -244,6 +248,8 @@ impl Oracle {
             first_connect: None,
             cover: 0,
             witness: None,
+            last_ping_ms: None,
+            pings_at_instant: 0,
         }
     }
 
@@ -492,6 +498,14 @@ impl Oracle {
                         mr::hex_short(rest)
                     ),
                 );
+                if c > 0 {
+                    self.flag(
+                        "C12",
+                        "R4-outbound-stream-torn-on-a-later-connection",
+                        &ctx,
+                        format!("connection {}: after {} of {} bytes of {} the next offered buffer is {}", c, off, cur.len(), mr::hex_short(&cur), mr::hex_short(buf)),
+                    );
+                }
                 self.conns[c].torn = true;
             }
             return;
@@ -521,7 +535,26 @@ impl Oracle {
                 self.conns[c].cur = Some(buf.to_vec());
                 self.conns[c].cur_off = 0;
             }
-            Err(Bad::Incomplete) => { /* judged on accepted bytes */ }
+            Err(Bad::Incomplete) if matches!(buf[0] >> 4, 1 | 3 | 4 | 5 | 6 | 7 | 8 | 10 | 12 | 14 | 15) => { /* judged on accepted bytes */ }
+            Err(Bad::Incomplete) => {
+                // no client packet starts with this byte, however many bytes follow
+                let ty = buf[0] >> 4;
+                self.flag(
+                    "C01",
+                    "W3-malformed",
+                    &format!("type{}-no-client-packet-starts-with-this-byte", ty),
+                    format!("at a packet boundary the client offers {}", mr::hex_short(buf)),
+                );
+                if c > 0 {
+                    self.flag(
+                        "C12",
+                        "R4-malformed-packet-on-a-later-connection",
+                        &format!("type{}-no-client-packet-starts-with-this-byte", ty),
+                        format!("connection {}: at a packet boundary the client offers {}: something partial was carried over", c, mr::hex_short(buf)),
+                    );
+                }
+                self.conns[c].torn = true;
+            }
             Err(Bad::Malformed(class, why)) => {
                 let ty = buf[0] >> 4;
                 self.flag(
@@ -530,6 +563,17 @@ impl Oracle {
                     &format!("type{}-{:?}-{}", ty, class, why.replace(' ', "_")),
                     format!("offered packet {} is malformed: {}", mr::hex_short(buf), why),
                 );
+                if c > 0 && ty != 1 {
+                    // (the known DUP flags of replayed SUBSCRIBE / UNSUBSCRIBE are C01's business)
+                    if !(matches!(ty, 8 | 10) && class == mr::MalClass::BadFlags) {
+                        self.flag(
+                            "C12",
+                            "R4-malformed-packet-on-a-later-connection",
+                            &format!("type{}-{}", ty, why.replace(' ', "_")),
+                            format!("connection {}: offered packet {} is malformed ({}): something partial was carried over", c, mr::hex_short(buf), why),
+                        );
+                    }
+                }
                 if matches!(ty, 4 | 5 | 7) {
                     self.flag(
                         "C04",
@@ -1193,7 +1237,26 @@ impl Oracle {
         match pkt {
             CPacket::Ack(a) if a.kind == AckKind::PubRel => self.obs.pubrels.push(raw.to_vec()),
             CPacket::Ack(_) => self.obs.acks.push(raw.to_vec()),
-            CPacket::PingReq | CPacket::Auth { .. } => {}
+            CPacket::PingReq => {
+                self.obs.pings += 1;
+                // C16: keep-alive probes are paced by time; several of them at one instant is a storm
+                let now = crate::clock::now_ms();
+                if self.last_ping_ms == Some(now) {
+                    self.pings_at_instant += 1;
+                    if self.pings_at_instant >= 3 {
+                        self.flag(
+                            "C16",
+                            "P3-pingreq-storm",
+                            "same-instant",
+                            format!("{} PINGREQs completed at the same instant ({} ms): keep-alive traffic is re-sent without bound", self.pings_at_instant, now),
+                        );
+                    }
+                } else {
+                    self.last_ping_ms = Some(now);
+                    self.pings_at_instant = 1;
+                }
+            }
+            CPacket::Auth { .. } => {}
             _ => self.obs.requests.push(raw.to_vec()),
         }
     }
